@@ -54,7 +54,11 @@ def model(tables, steps):
             sel = select(sp['resources'], names)
             st = [x for x in st if x[0] not in sel]
         elif s == 'iterable':
-            st = st + [['res_%d' % (len(st) + 1), [{'_id': r[0], 'a': r[1]} for r in sp['rows']], ['_id', 'a'] if sp['rows'] else []]]
+            # an unnamed iterable is called res_<position>, or the next free res_<n> when that name is taken
+            n = len(st) + 1
+            while 'res_%d' % n in names:
+                n += 1
+            st = st + [['res_%d' % n, [{'_id': r[0], 'a': r[1]} for r in sp['rows']], ['_id', 'a'] if sp['rows'] else []]]
         elif s == 'sources':
             # sources() runs each of its data sources as an own little flow: their resources are named res_1.. inside it
             for j, rows in enumerate(sp['tables']):
